@@ -336,6 +336,12 @@ def main(tier, seed):
         t9 = t9_strerror.main(need_strerror=False)
     except Exception as ex:
         terrs.append("t9_strerror: %s" % ex)
+    try:
+        # Proofs/ErrnoProofs.v (imported by the C17 proofs) sits on the descriptor layout / write census of C14
+        import t14_job
+        t14_job.main()
+    except Exception as ex:
+        terrs.append("t14_job: %s" % ex)
     pres = common.props_check(PID, extra_targets=["Props/Examples_C17.vo"])
     common.proof_coverage(res, pres, "make -k Props/Properties_C17.vo Props/Examples_C17.vo (coqc 8.16.1) + Print Assumptions",
                           ["Coq 8.16.1 kernel incl. vm_compute (finite check over the generated table of writable symbols)",
@@ -391,6 +397,23 @@ def main(tier, seed):
                           what="two threads, one manager each: thread 1 only succeeds on A and reads imb_get_errno(A) right after its own call; "
                                "%s of %s reads returned %s (thread 2's failure on B); field of A stayed %s"
                                % (W["W2"]["nonzero"], W["W2"]["iterations"], W["W2"]["first_code"], W["W2"]["fieldA"])))
+    # (e) concurrent creation / initialisation of private managers vs the same calls alone
+    rci, outi, erri = run([exe, "--initrace", "8", "2.5" if tier == "quick" else "20"], timeout=200)
+    IR = {}
+    for l in outi.splitlines():
+        if l.startswith("IR threads="):
+            IR = dict(x.split("=", 1) for x in l.split(" first=")[0].split()[1:])
+            IR["first"] = l.split(" first=", 1)[1]
+        elif l.startswith("IR unstable-alone"):
+            IR = {"unstable": l}
+    if rci != 0 or not IR:
+        V.append(dict(sig="initrace-crash", what="concurrent-creation probe exit %s %s" % (rci, erri[-200:])))
+    elif "unstable" in IR:
+        corr.append("concurrent-creation probe: the single-threaded reference is not reproducible: " + IR["unstable"])
+    elif int(IR["mismatches"]) != 0:
+        V.append(dict(sig="manager-influenced:concurrent-init", replay_kind="initrace",
+                      what="%s threads creating and initialising their own managers: after %s rounds a manager differed from what the same "
+                           "calls give alone: %s" % (IR["threads"], IR["rounds"], IR["first"])))
     allchanged = set(wchanged)
     soft_total = 0
     for r in results:
@@ -428,7 +451,7 @@ def main(tier, seed):
         "threaded_cases": sum(1 for r in results if r["mode"] == "threads"),
         "thread_counts": sorted(set(len(r["mgrs"]) for r in results if r["mode"] == "threads")),
         "variant_pairs_covered": len(set(tuple(map(tuple, r["mgrs"])) for r in results if len(r["mgrs"]) == 2)),
-        "variants": ["%s:f%d" % v for v in VARIANTS], "witness": W, "globals_changed_at_runtime": sorted(allchanged),
+        "variants": ["%s:f%d" % v for v in VARIANTS], "witness": W, "concurrent_creation": IR, "globals_changed_at_runtime": sorted(allchanged),
         "writable_symbols": [(s["name"], s["section"], s["size"]) for s in gj["syms"]], "writable_gaps": gj["gaps"],
         "get_errno_differences_in_threaded_runs": soft_total, "drd": drd, "items": len(lines),
         "samples": [cs[0][3][:8], cs[-1][3][:8]], "traces_validated_against_impl": len(results),
@@ -497,6 +520,11 @@ def replay(path):
         print(out)
         W = {l.split()[0]: dict(t.split("=", 1) for t in l.split()[1:]) for l in out.splitlines() if l.startswith("W")}
         bad = int(W["W1"]["getA_after_B_failed"]) != int(W["W1solo"]["getA"]) if sig.endswith("same-thread") else int(W["W2"]["nonzero"]) != 0
+        return 1 if bad else 0
+    if sig == "manager-influenced:concurrent-init":
+        rc, out, err = run([exe, "--initrace", "8", "15"], timeout=200)
+        print(out)
+        bad = rc != 0 or any(l.startswith("IR threads=") and " mismatches=0 " not in l for l in out.splitlines())
         return 1 if bad else 0
     if "script" in x:
         sys.path.insert(0, os.path.join(common.VERIF, "translators"))
